@@ -2,6 +2,7 @@ import SageModel.Proto
 import SageModel.Generated.Consts
 import SageModel.Model.Select
 import SageModel.Model.C18
+import SageModel.Model.C10
 
 /-! Driver ops for C18.
 
@@ -12,6 +13,7 @@ tmt <plex> ppmLo ppmHi level [n spectrum…] | [n row…]          rows sorted a
     row      = key(hex) file_id inj(f32) [n f32…]
 selpeak <p|c|d> lo hi center (0 | 1 offset) [n (mass intensity)…] | 0 | 1 mass intensity
 tmtconsts | 5 × [n f32…] PROTON (0 | 1 ppmLo ppmHi) (0 | 1 c1 c2 level (last|max))
+tmtproc <plex> level rawLevel deisotope maxPeaks (0 | 1 charge) [n (mz intensity)…] | [n row…]
 tmtguard <plex> level | (0 | 1 min_deisotope_mz) [n upper-edge…]
 ```
 
@@ -188,12 +190,61 @@ def handleGuard (args impl : List String) : Option Reply := do
             if protectedOk 20 labelsQ (some mq) (guardOf 0) then "ok" else "bad:reporter_region_unprotected"
   pure (exact model (" ".intercalate impl) spec)
 
+/-- `tmtproc`: the runner's pipeline on one raw spectrum.
+    Model = `minDeisotopeMz` (this file's tie of the runner expression) → C10's model of
+    `SpectrumProcessor::process` → `quantify`, all at `Float32`, compared exactly.
+    Spec (on the implementation's reply, exact rationals, m/z space, RAW peaks): a row exists iff the raw
+    spectrum's level is the quantification level (≠ 1); every channel value is the maximum raw intensity in
+    the channel's ±20 ppm window, 0 if none — i.e. neither deisotoping nor the rest of the preprocessing
+    changed a reporter value (`bad:reporter_changed_by_deisotoping`). `na` when `maxPeaks` is smaller than the
+    number of raw peaks (a reporter peak may legitimately fall to the top-N cut). -/
+def handleProc (args impl : List String) : Option Reply := do
+  let (plex, level, rawLevel, deiso, maxPeaks, charge, peaks) ← run (do
+    let p ← plexP; let lv ← nat; let rl ← nat; let d ← bool; let k ← nat; let z ← opt nat
+    let ps ← list (do let m ← nat; let i ← nat; pure (m, i))
+    pure (p, lv, rl, d, k, z, ps)) args
+  let labels := (labelsBits plex).map f32OfBits
+  let minMz : Float32 := (minDeisotopeMz labels level (c1F + c2F)).getD (Float32.ofNat 0)
+  let cfg : Sage.C10.Cfg Float32 := { takeTopN := maxPeaks, deisotope := deiso, minDeisoMz := minMz }
+  let raw : Sage.C10.Raw Float32 :=
+    { level := rawLevel, centroid := true, charge := charge,
+      peaks := peaks.map fun (m, i) => (f32OfBits m, f32OfBits i) }
+  let model : String :=
+    match Sage.C10.process cfg raw with
+    | none => "panic"
+    | some (ps, _) =>
+      let s : Spectrum Float32 :=
+        { level := rawLevel, id := "s", fileId := 0, injTime := Float32.ofNat 0, precursors := [some "p"],
+          peaks := ps.map fun p => ⟨p.mass, p.intensity⟩ }
+      renderRows (quantify protonF [s] labels (.ppm ppmLoF ppmHiF) level)
+  let spec : String :=
+    match run (list rowP) impl with
+    | none => if impl == ["panic"] then "bad:panic" else "na"
+    | some irows =>
+      let expectRow := level != 1 && rawLevel == level
+      if irows.length != (if expectRow then 1 else 0) then "bad:row_count" else
+      if !expectRow then "ok" else
+      if irows.any (fun r => r.specId != (if level == 2 then "s" else "p") || r.fileId != 0) then "bad:row_key" else
+      if irows.any (fun r => r.peaks.length != (labelsBits plex).length) then "bad:channel_count" else
+      if maxPeaks < peaks.length then "na" else
+      let rawQ : Option (List (Peak Rat)) := peaks.mapM fun (m, i) => do
+        let mq ← ratOfF32Bits m
+        let iq ← ratOfF32Bits i
+        if iq < 0 then none else pure (⟨mq - Sage.Gen.PROTON, iq⟩ : Peak Rat)   -- so that mass + PROTON = raw m/z exactly
+      match ratsOf (labelsBits plex), rawQ, irows.mapM rowQ with
+      | some labelsQ, some rawQ, some rowsQ =>
+        if rowsQ.all (fun r => channelsOk Sage.Gen.PROTON (-20) 20 (guardOf Sage.Gen.PROTON) rawQ labelsQ r.peaks)
+        then "ok" else "bad:reporter_changed_by_deisotoping"
+      | _, _, _ => "na"
+  pure (exact model (" ".intercalate impl) spec)
+
 def handle (op : String) (args impl : List String) : Option Reply :=
   match op with
   | "tmt" => handleTmt args impl
   | "selpeak" => handleSel args impl
   | "tmtconsts" => handleConsts args impl
   | "tmtguard" => handleGuard args impl
+  | "tmtproc" => handleProc args impl
   | _ => none
 
 end Sage.C18
